@@ -40,6 +40,7 @@ type Event struct {
 type Recorder struct {
 	inner  disk.DiskManager
 	mu     sync.Mutex
+	pageMu sync.Mutex
 	Events []Event
 	On     bool
 	// Concurrent mode (for write-ahead monitoring under real concurrency): calls are NOT serialised by the recorder;
@@ -67,10 +68,14 @@ func Install() func() *Recorder {
 // Uninstall removes the wrapper (instances created afterwards are not recorded).
 func Uninstall() { samehada.VerifDiskManagerWrapper = nil }
 
-func (r *Recorder) Mark(s string, txn int) {
+func (r *Recorder) Mark(s string, txn int) { r.MarkIdx(s, txn) }
+
+// MarkIdx appends a marker and returns its event index (atomic, for histories driven by several goroutines).
+func (r *Recorder) MarkIdx(s string, txn int) int {
 	r.mu.Lock()
+	defer r.mu.Unlock()
 	r.Events = append(r.Events, Event{Kind: Marker, Mark: s, Txn: txn})
-	r.mu.Unlock()
+	return len(r.Events) - 1
 }
 
 func (r *Recorder) Len() int {
@@ -82,6 +87,9 @@ func (r *Recorder) Len() int {
 func (r *Recorder) ReadPage(id types.PageID, b []byte) error { return r.inner.ReadPage(id, b) }
 func (r *Recorder) WritePage(id types.PageID, b []byte) error {
 	if r.Concurrent {
+		// page writes stay ordered among themselves (as the disk manager's own file mutex orders them); log writes are not held up
+		r.pageMu.Lock()
+		defer r.pageMu.Unlock()
 		r.mu.Lock()
 		if r.On {
 			r.Events = append(r.Events, Event{Kind: WritePage, Page: int32(id), Data: append([]byte(nil), b...)})
@@ -97,13 +105,13 @@ func (r *Recorder) WritePage(id types.PageID, b []byte) error {
 	}
 	return err
 }
-func (r *Recorder) AllocatePage() types.PageID   { return r.inner.AllocatePage() }
+func (r *Recorder) AllocatePage() types.PageID     { return r.inner.AllocatePage() }
 func (r *Recorder) DeallocatePage(id types.PageID) { r.inner.DeallocatePage(id) }
-func (r *Recorder) GetNumWrites() uint64         { return r.inner.GetNumWrites() }
-func (r *Recorder) ShutDown()                    { r.inner.ShutDown() }
-func (r *Recorder) Size() int64                  { return r.inner.Size() }
-func (r *Recorder) RemoveDBFile()                { r.inner.RemoveDBFile() }
-func (r *Recorder) RemoveLogFile()               { r.inner.RemoveLogFile() }
+func (r *Recorder) GetNumWrites() uint64           { return r.inner.GetNumWrites() }
+func (r *Recorder) ShutDown()                      { r.inner.ShutDown() }
+func (r *Recorder) Size() int64                    { return r.inner.Size() }
+func (r *Recorder) RemoveDBFile()                  { r.inner.RemoveDBFile() }
+func (r *Recorder) RemoveLogFile()                 { r.inner.RemoveLogFile() }
 func (r *Recorder) WriteLog(b []byte) error {
 	if r.Concurrent {
 		data := append([]byte(nil), b...)
